@@ -43,6 +43,10 @@ Nested == {[shape |-> "nested", kind |-> k, where |-> w, inner |-> i] : k \in {"
 Implicit == {[shape |-> "implicit", n |-> n, where |-> w, tgt |-> t] : n \in {2, 3}, t \in {"star", "cols", "count"},
                w \in {"none", "t1a=t2a", "t1a=t2a&t2c=1", "t1a=t2a|t2c=1", "not-t1a=t2a", "t1b=1&t1a=t2a", "t1b=1", "t2c=1|t1b=1",
                       "t1a<t2a", "t2a=t1a&not-t2c=1", "(t1a=t2a|t1b=1)&t2c=1", "t1a=t2a&t1b=t2c", "t1a=t2c|t1b=t2a"}}
+\* ON clauses that are more than one equality: a further condition on one side, negated, disjoined, an inequality, a constant-first spelling
+JoinOn == {[shape |-> "joinon", kind |-> k, on |-> o, where |-> w] : k \in Kinds, w \in {"none", "t1b=1", "t2c=1"},
+             o \in {"eq&t2c=1", "eq&not-t2c=1", "not-eq", "eq|t2c=1", "eq&t1b=1", "t1a<t2a", "eq&not(t2c=1|t1b=1)", "eq&1=t2c", "eq&t2c-null", "eq&t2c-in",
+                    "eq&t2c-between", "not(eq&t2c=1)"}}
 Scalar == {[shape |-> "scalar", f |-> f, cmp |-> o] : f \in {"max", "min", "count"}, o \in {"=", ">"}}
 
 \* single-integration family (C11): everything lives in int1
@@ -54,7 +58,7 @@ Single == {[shape |-> "single", body |-> b, alias |-> a] :
                     "long-in-list-late-column-18", "long-in-list-late-column-70", "many-targets-late-qualified"},
              a \in {"none", "table-alias", "alias-is-integration-name", "column-named-like-integration", "qualified-columns"}}
 
-Cases == IF Family = "federated" THEN Join2 \cup Join3 \cup InSub \cup SetOp \cup SetOp3 \cup Cte \cup CteShadow \cup Api \cup Nested \cup Scalar \cup Implicit ELSE Single
+Cases == IF Family = "federated" THEN Join2 \cup Join3 \cup InSub \cup SetOp \cup SetOp3 \cup Cte \cup CteShadow \cup Api \cup Nested \cup Scalar \cup Implicit \cup JoinOn ELSE Single
 Init == c \in Cases
 Next == UNCHANGED c
 Spec == Init /\ [][Next]_c
